@@ -230,6 +230,121 @@ theorem contentStep_ok (prev out t : List Char) (interp : Bool) (h : contentStep
   · simp only [] at h
     split at h <;> simp at h
 
+/-! ### `neutralRel` (monitor 3b) -/
+
+def neut (c : Char) : Char := if isWhite c then c else 'x'
+
+theorem neutral_eq_map (t : List Char) : neutral t = t.map neut := rfl
+
+theorem isWhite_x : isWhite 'x' = false := by decide
+
+theorem isWhite_neut (c : Char) : isWhite (neut c) = isWhite c := by
+  unfold neut; split
+  · rfl
+  · rename_i h; simp [isWhite_x, h]
+
+theorem neutralRel_refl (a : List Char) : neutralRel a a = true := by
+  induction a with
+  | nil => rfl
+  | cons x a ih => simp [neutralRel, ih]
+
+theorem neutralRel_neutral (a : List Char) : neutralRel a (neutral a) = true := by
+  induction a with
+  | nil => rfl
+  | cons x a ih =>
+    simp only [neutral, List.map_cons, neutralRel, Bool.and_eq_true, Bool.or_eq_true, beq_iff_eq,
+      Bool.not_eq_true']
+    refine ⟨?_, ih⟩
+    by_cases h : isWhite x = true
+    · left; simp [h]
+    · right; simp [h]
+
+theorem neutralRel_append (a b c d : List Char) (h1 : neutralRel a b = true) (h2 : neutralRel c d = true) :
+    neutralRel (a ++ c) (b ++ d) = true := by
+  induction a generalizing b with
+  | nil => cases b with
+    | nil => simpa using h2
+    | cons y b => simp [neutralRel] at h1
+  | cons x a ih => cases b with
+    | nil => simp [neutralRel] at h1
+    | cons y b =>
+      simp only [neutralRel, Bool.and_eq_true] at h1
+      simp only [List.cons_append, neutralRel, Bool.and_eq_true]
+      exact ⟨h1.1, ih b h1.2⟩
+
+theorem neutralRel_dropLast (a b : List Char) (h : neutralRel a b = true) :
+    neutralRel a.dropLast b.dropLast = true := by
+  induction a generalizing b with
+  | nil => cases b with
+    | nil => rfl
+    | cons y b => simp [neutralRel] at h
+  | cons x a ih => cases b with
+    | nil => simp [neutralRel] at h
+    | cons y b =>
+      simp only [neutralRel, Bool.and_eq_true] at h
+      cases a with
+      | nil => cases b with
+        | nil => rfl
+        | cons z b => simp [neutralRel] at h
+      | cons x2 a => cases b with
+        | nil => simp [neutralRel] at h
+        | cons z b =>
+          simp only [List.dropLast_cons_cons, neutralRel, Bool.and_eq_true]
+          exact ⟨h.1, ih (z :: b) h.2⟩
+
+theorem neutralRel_pop2 (a b : List Char) (h : neutralRel a b = true) : neutralRel (pop2 a) (pop2 b) = true :=
+  neutralRel_dropLast _ _ (neutralRel_dropLast _ _ h)
+
+theorem neutralRel_reverse (a b : List Char) (h : neutralRel a b = true) :
+    neutralRel a.reverse b.reverse = true := by
+  induction a generalizing b with
+  | nil => cases b with
+    | nil => rfl
+    | cons y b => simp [neutralRel] at h
+  | cons x a ih => cases b with
+    | nil => simp [neutralRel] at h
+    | cons y b =>
+      simp only [neutralRel, Bool.and_eq_true] at h
+      simp only [List.reverse_cons]
+      exact neutralRel_append _ _ _ _ (ih b h.2) (by simp [neutralRel, h.1])
+
+theorem neutralRel_space (x y : Char) (h : (x == y || (!isWhite x && y == 'x')) = true) :
+    (x == ' ') = (y == ' ') := by
+  simp only [Bool.or_eq_true, beq_iff_eq, Bool.and_eq_true, Bool.not_eq_true'] at h
+  rcases h with h | ⟨h1, h2⟩
+  · rw [h]
+  · subst h2
+    have : x ≠ ' ' := fun e => by rw [e] at h1; simp [isWhite_space] at h1
+    simp [this]
+
+theorem neutralRel_endsWith (a b : List Char) (h : neutralRel a b = true) :
+    endsWith a [' ', ' '] = endsWith b [' ', ' '] := by
+  have hr := neutralRel_reverse a b h
+  unfold endsWith
+  generalize a.reverse = ra at hr
+  generalize b.reverse = rb at hr
+  cases ra with
+  | nil => cases rb with
+    | nil => rfl
+    | cons y rb => simp [neutralRel] at hr
+  | cons x ra => cases rb with
+    | nil => simp [neutralRel] at hr
+    | cons y rb =>
+      simp only [neutralRel, Bool.and_eq_true] at hr
+      have e1 := neutralRel_space x y hr.1
+      cases ra with
+      | nil => cases rb with
+        | nil => simp [List.isPrefixOf]
+        | cons z rb => simp [neutralRel] at hr
+      | cons x2 ra => cases rb with
+        | nil => simp [neutralRel] at hr
+        | cons y2 rb =>
+          simp only [neutralRel, Bool.and_eq_true] at hr
+          have e2 := neutralRel_space x2 y2 hr.2.1
+          simp only [List.reverse_cons, List.reverse_nil, List.nil_append, List.cons_append, List.isPrefixOf,
+            Bool.and_true]
+          rw [Bool.beq_comm (a := ' '), Bool.beq_comm (a := ' '), e1, e2, Bool.beq_comm (a := y), Bool.beq_comm (a := y2)]
+
 end Witverif.Text.SourceSpec
 
 namespace Witverif.Text.Source
@@ -1431,5 +1546,248 @@ theorem content_global (ops : List Op) :
       have := ih st1 (trackReq tr (reqOf op)) (acc ++ textOf op) hr' hacc' (fun o ho => hwf o (by simp [ho]))
         hsafe.2 hsync st' hr
       simpa [List.flatMap_cons, List.append_assoc] using this
+
+/-! ### literal text influences nothing but itself (monitor 3b) -/
+
+/-- two buffers that went through the same history up to neutralised literal text -/
+structure NRel (a b : Source) : Prop where
+  ind : a.indent = b.indent
+  cm : a.inLineComment = b.inLineComment
+  cont : a.continuingLine = b.continuingLine
+  s : neutralRel a.s b.s = true
+
+theorem nrel_refl (a : Source) : NRel a a := ⟨rfl, rfl, rfl, neutralRel_refl _⟩
+
+theorem pushLine_nrel (single interp : Bool) (l1 l2 : List Char) (st1 st2 : Source) (h : NRel st1 st2)
+    (hl : interp = true → l1 = l2) (he : l1.isEmpty = l2.isEmpty)
+    (hs : neutralRel (if single then l1 else trimStart l1) (if single then l2 else trimStart l2) = true) :
+    NRel (pushLine single interp l1 st1) (pushLine single interp l2 st2) := by
+  obtain ⟨hi, hc, hco, hss⟩ := h
+  have hs1 : neutralRel (if (!st1.continuingLine && !l1.isEmpty) = true then st1.s ++ spaces st1.indent else st1.s)
+      (if (!st2.continuingLine && !l2.isEmpty) = true then st2.s ++ spaces st2.indent else st2.s) = true := by
+    rw [hco, he, hi]
+    split
+    · exact neutralRel_append _ _ _ _ hss (neutralRel_refl _)
+    · exact hss
+  cases interp with
+  | false =>
+    refine ⟨?_, ?_, ?_, ?_⟩
+    · simp [pushLine, hi]
+    · simp [pushLine, hc]
+    · simp [pushLine]
+    · simp only [pushLine, Bool.false_and, Bool.false_eq_true, if_false]
+      exact neutralRel_append _ _ _ _ hs1 hs
+  | true =>
+    have hl' := hl rfl
+    subst hl'
+    refine ⟨?_, ?_, ?_, ?_⟩
+    · simp [pushLine, hi, hc]
+    · simp [pushLine, hc]
+    · simp [pushLine]
+    · simp only [pushLine]
+      apply neutralRel_append _ _ _ _ _ hs
+      rw [hc, neutralRel_endsWith _ _ hs1]
+      generalize (if (!st1.continuingLine && !l1.isEmpty) = true then st1.s ++ spaces st1.indent else st1.s) = x1 at hs1 ⊢
+      generalize (if (!st2.continuingLine && !l1.isEmpty) = true then st2.s ++ spaces st2.indent else st2.s) = x2 at hs1 ⊢
+      split
+      · exact neutralRel_pop2 _ _ hs1
+      · exact hs1
+
+theorem newline_nrel (st1 st2 : Source) (h : NRel st1 st2) : NRel (newline st1) (newline st2) :=
+  ⟨h.ind, rfl, rfl, neutralRel_append _ _ _ _ h.s (neutralRel_refl _)⟩
+
+
+theorem neut_nl (c : Char) : (neut c = '\n') ↔ c = '\n' := by
+  unfold neut; split
+  · exact Iff.rfl
+  · rename_i h
+    constructor
+    · intro e; exact absurd e (by decide)
+    · intro e; subst e; exact absurd isWhite_nl h
+
+theorem neut_cr (c : Char) : (neut c = '\r') ↔ c = '\r' := by
+  unfold neut; split
+  · exact Iff.rfl
+  · rename_i h
+    constructor
+    · intro e; exact absurd e (by decide)
+    · intro e; subst e; exact absurd isWhite_cr h
+
+theorem splitNl_neutral (t : List Char) :
+    splitNl (neutral t) = (splitNl t).map (fun p => (neutral p.1, p.2)) := by
+  induction t with
+  | nil => rfl
+  | cons c cs ih =>
+    simp only [neutral_eq_map, List.map_cons] at ih ⊢
+    unfold splitNl
+    by_cases hc : c = '\n'
+    · subst hc
+      have : neut '\n' = '\n' := (neut_nl _).mpr rfl
+      simp [this, ih]
+    · have : neut c ≠ '\n' := fun e => hc ((neut_nl c).mp e)
+      simp only [hc, this, if_false]
+      rw [ih]
+      cases splitNl cs with
+      | nil => rfl
+      | cons p r => rfl
+
+theorem stripCrEnd_neutral (l : List Char) : stripCrEnd (neutral l) = neutral (stripCrEnd l) := by
+  unfold stripCrEnd
+  simp only [neutral_eq_map, List.getLast?_map]
+  have : (Option.map neut l.getLast? = some '\r') ↔ (l.getLast? = some '\r') := by
+    cases l.getLast? with
+    | none => simp
+    | some c => simp [neut_cr]
+  by_cases h : l.getLast? = some '\r'
+  · rw [if_pos (this.mpr h), if_pos h, List.map_dropLast]
+  · rw [if_neg (fun e => h (this.mp e)), if_neg h]
+
+theorem lineOf_neutral (p : List Char × Bool) : lineOf (neutral p.1, p.2) = neutral (lineOf p) := by
+  unfold lineOf; split
+  · exact stripCrEnd_neutral _
+  · rfl
+
+theorem trimStart_neutral (l : List Char) : trimStart (neutral l) = neutral (trimStart l) := by
+  unfold trimStart
+  rw [neutral_eq_map, List.dropWhile_map]
+  congr 1
+  congr 1
+  funext c; exact isWhite_neut c
+
+theorem pushPiece_nrel_lit (single : Bool) (p : List Char × Bool) (st1 st2 : Source) (h : NRel st1 st2) :
+    NRel (pushPiece single false st1 p) (pushPiece single false st2 (neutral p.1, p.2)) := by
+  have hl : NRel (pushLine single false (lineOf p) st1) (pushLine single false (lineOf (neutral p.1, p.2)) st2) := by
+    rw [lineOf_neutral]
+    apply pushLine_nrel single false _ _ _ _ h (by simp)
+    · simp [neutral_eq_map]
+    · cases single
+      · simp only [Bool.false_eq_true, if_false]; rw [trimStart_neutral]; exact neutralRel_neutral _
+      · exact neutralRel_neutral _
+  unfold pushPiece
+  simp only
+  split
+  · exact newline_nrel _ _ hl
+  · exact hl
+
+theorem pushPiece_nrel_same (single interp : Bool) (p : List Char × Bool) (st1 st2 : Source) (h : NRel st1 st2) :
+    NRel (pushPiece single interp st1 p) (pushPiece single interp st2 p) := by
+  have hl := pushLine_nrel single interp (lineOf p) (lineOf p) st1 st2 h (fun _ => rfl) rfl (neutralRel_refl _)
+  unfold pushPiece
+  split
+  · exact newline_nrel _ _ hl
+  · exact hl
+
+theorem pushStrImpl_nrel_same (st1 st2 : Source) (h : NRel st1 st2) (t : List Char) (interp : Bool) :
+    NRel (pushStrImpl st1 t interp) (pushStrImpl st2 t interp) := by
+  rw [pushStrImpl_eq, pushStrImpl_eq]
+  generalize ((splitNl t).length == 1) = single
+  generalize splitNl t = ps
+  induction ps generalizing st1 st2 with
+  | nil => exact h
+  | cons p ps ih => exact ih _ _ (pushPiece_nrel_same single interp p st1 st2 h)
+
+theorem pushStrImpl_nrel_lit (st1 st2 : Source) (h : NRel st1 st2) (t : List Char) :
+    NRel (pushStrImpl st1 t false) (pushStrImpl st2 (neutral t) false) := by
+  rw [pushStrImpl_eq, pushStrImpl_eq, splitNl_neutral, List.length_map]
+  generalize ((splitNl t).length == 1) = single
+  generalize splitNl t = ps
+  induction ps generalizing st1 st2 with
+  | nil => exact h
+  | cons p ps ih => exact ih _ _ (pushPiece_nrel_lit single p st1 st2 h)
+
+/-- two operations that are the same up to neutralised literal text -/
+inductive OpRel : Op → Op → Prop
+  | same (op : Op) : OpRel op op
+  | lit (t : List Char) : OpRel (.pushLit t) (.pushLit (neutral t))
+  | append (o1 o2 : Source) : NRel o1 o2 → OpRel (.appendSrc o1) (.appendSrc o2)
+
+theorem step_nrel (st1 st2 : Source) (h : NRel st1 st2) (op1 op2 : Op) (ho : OpRel op1 op2) :
+    match st1.step op1, st2.step op2 with
+    | some a, some b => NRel a b
+    | none, none => True
+    | _, _ => False := by
+  cases ho with
+  | lit t => exact pushStrImpl_nrel_lit st1 st2 h t
+  | append o1 o2 hr =>
+    exact ⟨by simp [appendSrc, h.ind, hr.ind], hr.cm, h.cont, neutralRel_append _ _ _ _ h.s hr.s⟩
+  | same =>
+    cases op1 with
+    | pushStr t => exact pushStrImpl_nrel_same st1 st2 h t true
+    | pushLit t => exact pushStrImpl_nrel_same st1 st2 h t false
+    | indent n => exact ⟨by simp [addIndent, h.ind], h.cm, h.cont, h.s⟩
+    | deindent n =>
+      simp only [step, deindent, h.ind]
+      by_cases hn : n ≤ st2.indent
+      · simp only [hn, if_true]
+        exact ⟨rfl, h.cm, h.cont, h.s⟩
+      · simp only [hn, if_false]
+    | setIndent n => exact ⟨rfl, h.cm, h.cont, h.s⟩
+    | appendSrc o =>
+      exact ⟨by simp [appendSrc, h.ind], rfl, h.cont, neutralRel_append _ _ _ _ h.s (neutralRel_refl _)⟩
+
+
+/-- element-wise relation of two lists of equal length -/
+def AllPairs {α β : Type} (R : α → β → Prop) : List α → List β → Prop
+  | [], [] => True
+  | a :: as, b :: bs => R a b ∧ AllPairs R as bs
+  | _, _ => False
+
+/-- what monitor (3b) compares: two results of the same step of the two runs -/
+def PairOk : Option Source → Option Source → Prop
+  | some a, some b => literalPairOk { indent := a.indent, s := a.s } { indent := b.indent, s := b.s } = true
+  | none, none => True
+  | _, _ => False
+
+/-- Monitor (3b) on the model: two histories that differ only in that literal fragments are
+neutralised give, operation by operation, equal indentation levels and buffers related by
+`neutralRel` (and panic at the same operation). -/
+theorem literal_run (ops1 ops2 : List Op) :
+    AllPairs OpRel ops1 ops2 → ∀ st1 st2, NRel st1 st2 → AllPairs PairOk (trace st1 ops1) (trace st2 ops2) := by
+  induction ops1 generalizing ops2 with
+  | nil =>
+    cases ops2 with
+    | nil => intro _ _ _ _; trivial
+    | cons _ _ => intro h; exact absurd h id
+  | cons op1 r1 ih =>
+    cases ops2 with
+    | nil => intro h; exact absurd h id
+    | cons op2 r2 =>
+      intro ho st1 st2 h
+      obtain ⟨hop, hrest⟩ := ho
+      have hstep := step_nrel st1 st2 h op1 op2 hop
+      simp only [trace]
+      cases h1 : st1.step op1 with
+      | none =>
+        cases h2 : st2.step op2 with
+        | none => exact ⟨trivial, trivial⟩
+        | some b => rw [h1, h2] at hstep; exact absurd hstep id
+      | some a =>
+        cases h2 : st2.step op2 with
+        | none => rw [h1, h2] at hstep; exact absurd hstep id
+        | some b =>
+          rw [h1, h2] at hstep
+          refine ⟨?_, ih r2 hrest a b hstep⟩
+          simp [PairOk, literalPairOk, hstep.ind, hstep.s]
+
+
+/-! ### the tracking state along a run -/
+
+theorem rel_run (ops : List Op) :
+    ∀ (st : Source) (tr : Track), (tr.sync = true → Rel st tr) → WFOps ops →
+      ∀ st', run st ops = some st' → ((trackOps tr ops).sync = true → Rel st' (trackOps tr ops)) := by
+  induction ops with
+  | nil => intro st tr h _ st' hr; simp only [run, Option.some.injEq] at hr; subst hr; exact h
+  | cons op ops ih =>
+    intro st tr hrel hwf st' hr
+    cases hs : st.step op with
+    | none => simp [run, hs] at hr
+    | some st1 =>
+      simp only [run, hs] at hr
+      have hop : ∀ o, op = .appendSrc o → Reachable o := fun o ho => hwf o (by simp [ho])
+      obtain ⟨_, hr', _⟩ := step_good st tr { indent := st.indent, s := st.s } ⟨rfl, rfl⟩ hrel op hop st1 hs
+      exact ih st1 _ hr' (fun o ho => hwf o (by simp [ho])) st' hr
+
+theorem rel_empty : Rel Source.empty Track.init :=
+  ⟨rfl, rfl, fun _ => rfl, fun _ => Or.inl rfl⟩
 
 end Witverif.Text.Source
